@@ -1082,6 +1082,15 @@ class VLock:
         # locked right now" does not mean that acquiring will not suspend, nor that nobody else gets it first
         return self.owner is not None
 
+    # the explicit protocol next to the context manager one, BOTH asynchronous (as curio-style locks have it): a user of
+    # the lock that prefers acquire()/release() has to await both - a release() that is merely called releases nothing
+    async def acquire(self) -> bool:
+        await self.__aenter__()
+        return True
+
+    async def release(self) -> None:
+        await self.__aexit__(None, None, None)
+
     async def __aenter__(self) -> "VLock":
         if self.susp_enter:
             await Suspend(("lock-pre", self.name), self.susp_enter)
